@@ -410,6 +410,11 @@ func (c *Config) validateHealthChecks() error {
 		if c.HealthChecks.Active.Path == "" {
 			return fmt.Errorf("active health check path is required when enabled")
 		}
+		// The value is used as the path of the probe URL: a query or fragment would be escaped into
+		// the path, the probe would miss the endpoint and every backend would be ejected.
+		if strings.ContainsAny(c.HealthChecks.Active.Path, "?#") {
+			return fmt.Errorf("active health check path must be a plain URL path without query or fragment (got %q)", c.HealthChecks.Active.Path)
+		}
 	}
 
 	// Validate passive health checks
